@@ -1,10 +1,86 @@
 import Ldap3V.Driver.Util
+import Ldap3V.Spec.Url
 namespace Ldap3V.Driver
-open Ldap3V
+open Ldap3V Ldap3V.Url
+
+def kindName : ExtKind → String
+  | .bindname => "bindname"
+  | .credentials => "credentials"
+  | .saslMech => "saslmech"
+  | .startTls => "starttls"
+  | .xbindpw => "xbindpw"
+
+/-- canonical order of the set: by kind name -/
+def kindOrder : List ExtKind := [.bindname, .credentials, .saslMech, .startTls, .xbindpw]
+
+def showScope : Scope → String
+  | .base => "0"
+  | .oneLevel => "1"
+  | .subtree => "2"
+
+def showUrlResult : Url.Result → String
+  | .panic => "panic"
+  | .err .decodingUtf8 => "err DecodingUTF8"
+  | .err .invalidScope => "err InvalidScope"
+  | .err .unrecognizedCritical => "err UnrecognizedCritical"
+  | .ok p =>
+    let exts := kindOrder.filterMap fun k => p.exts.find? (fun e => e.kind == k)
+    "ok base=" ++ hexOf p.base ++ " attrs=[" ++ ",".intercalate (p.attrs.map hexOf) ++ "] scope=" ++
+      showScope p.scope ++ " filter=" ++ hexOf p.filter ++ " exts=[" ++
+      ",".intercalate (exts.map fun e => kindName e.kind ++ ":" ++ hexOf e.value) ++ "]"
+
+def parseStyle : String → Option Spec.Style
+  | "strict" => some Spec.Style.strict
+  | "strict-lc" => some { Spec.Style.strict with upper := false }
+  | "minimal" => some (Spec.Style.minimal true)
+  | "minimal-lc" => some (Spec.Style.minimal false)
+  | _ => none
+
+def parseOptHex (s : String) : Option (Option Bytes) :=
+  if s == "n" then some none else (unhex s).map some
+
+def parseHexList (s : String) (sep : String) : Option (List Bytes) :=
+  if s == "n" then some [] else (s.splitOn sep).mapM unhex
+
+def parseExtC (s : String) : Option Spec.ExtC :=
+  match s.splitOn ":" with
+  | [c, n, v] =>
+    match unhex n, parseOptHex v with
+    | some name, some value => if c == "c" || c == "o" then some ⟨name, c == "c", value⟩ else none
+    | _, _ => none
+  | _ => none
+
+def parseScopeOpt : String → Option (Option Scope)
+  | "n" => some none
+  | "0" => some (some .base)
+  | "1" => some (some .oneLevel)
+  | "2" => some (some .subtree)
+  | _ => none
+
+def specFormat (arg : String) : Option String :=
+  match arg.splitOn " " with
+  | [st, sl, kp, b, at_, sc, fl, ex] => do
+    let style ← parseStyle st
+    let keep ← kp.toNat?
+    let base ← unhex b
+    let attrs ← parseHexList at_ ","
+    let scope ← parseScopeOpt sc
+    let filter ← parseOptHex fl
+    let exts ← if ex == "n" then some [] else (ex.splitOn ";").mapM parseExtC
+    let f := Spec.format style ⟨base, attrs, scope, filter, exts⟩ ⟨sl == "1", keep⟩
+    some ("path=" ++ hexOf f.path ++ " query=" ++ (match f.query with | none => "none" | some q => hexOf q))
+  | _ => none
 
 /-- line-protocol handler for the `Url` family of commands; `none` = not mine -/
 def handleUrl (cmd arg : String) : Option String :=
   match cmd with
+  | "url.params" => some (match arg.splitOn " " with
+      | [p, q] =>
+        match unhex p, (if q == "none" then some none else (unhex q).map some) with
+        | some path, some query => showUrlResult (getUrlParams path query)
+        | _, _ => "bad-request"
+      | _ => "bad-request")
+  | "spec.url.format" => some ((specFormat arg).getD "bad-request")
   | _ => none
 
 end Ldap3V.Driver
